@@ -1,0 +1,14 @@
+//go:build verif
+
+package internal
+
+import "sync/atomic"
+
+// VerifHook is installed by statedb.VerifSetHook.
+var VerifHook atomic.Pointer[func(point string)]
+
+func vhook(point string) {
+	if f := VerifHook.Load(); f != nil {
+		(*f)(point)
+	}
+}
